@@ -1,7 +1,7 @@
 (* Proofs/MetaHdd.v — Parallels DiskDescriptor.xml: what Descriptor exposes for a rendered
    document is the stored record (storages, images, shots, and TopGUID when present). *)
 From Coq Require Import String ZArith List Bool Lia.
-From DH Require Import Base.Plan Model.MetaCodec Model.MetaHdd.
+From DH Require Import Base.Plan Gen.MetaHddTables Model.MetaCodec Model.MetaHdd.
 Import ListNotations.
 Open Scope list_scope.
 Open Scope Z_scope.
@@ -116,3 +116,11 @@ Example py_uuid_example :
   py_uuid (tag "5FBAABE3695840FF92A7860E329AAB41") = Some 127245913124692219487724996241204620097 /\
   py_int (tag " +0012 ") = Some 12.
 Proof. repeat split; vm_compute; reflexivity. Qed.
+
+(* the element names the model looks up are exactly those hdd.py looks up (generated list) *)
+Lemma hdd_tags_tied :
+  let used := [tag "StorageData"; tag "Snapshots"; tag "Storage"; tag "Start"; tag "End"; tag "Image"; tag "GUID";
+               tag "Type"; tag "File"; tag "TopGUID"; tag "Shot"; tag "ParentGUID"] in
+  forallb (fun t => existsb (list_eqb t) meta_hdd_tags) used = true /\
+  forallb (fun t => existsb (list_eqb t) used) meta_hdd_tags = true.
+Proof. split; vm_compute; reflexivity. Qed.
